@@ -247,6 +247,74 @@ func runC03(c *Ctx) {
 	if nSites < 20 {
 		c.Undecided("only %d DecodeIdFromList/DecodeById call sites found (22 confirmed by hand)", nSites)
 	}
+	// (d) outside package cbor nobody steps over a container header by a byte count of their own: a constant
+	// StreamDecoder.Advance, or a decode of data[k:] with a constant k ≥ 1, assumes the header is k bytes long and reads
+	// a length byte as the first element whenever the length is not minimally encoded
+	nSkip := 0
+	for _, p := range c.W.Pkgs {
+		rel := relPkg(p.PkgPath)
+		if rel == "cbor" || strings.HasPrefix(rel, "internal") || strings.HasPrefix(rel, "cmd") {
+			continue
+		}
+		for _, fn := range c.pkgFuncs(rel) {
+			for _, ci := range allCalls(fn) {
+				cn := calleeName(ci.Common())
+				switch {
+				case cn == "cbor.(*StreamDecoder).Advance":
+					nSkip++
+					arg := ci.Common().Args[len(ci.Common().Args)-1]
+					_, isConst := arg.(*ssa.Const)
+					fromHeader := strings.Contains(trace(arg), "DecodeArrayHeader(") || strings.Contains(trace(arg), "DecodeMapHeader(")
+					c.Check(!isConst && fromHeader, "header-skip", ssaFuncKey(fn)+":Advance", ci.Pos(), "the stream is advanced by the header length the decoder reported",
+						"the stream decoder is advanced by "+shortArg(trace(arg))+" bytes to step over a container header: the header is assumed to have that size, so with a non-minimal length encoding a length byte is decoded as the first element (the tag)")
+				case cn == "cbor.Decode" || cn == "cbor.DecodeGeneric" || cn == "cbor.DecodeLenient" || cn == "cbor.NewStreamDecoder" || cn == "cbor.DecodeIdFromList":
+					if len(ci.Common().Args) == 0 {
+						continue
+					}
+					sl, isSl := ci.Common().Args[0].(*ssa.Slice)
+					if !isSl || sl.Low == nil {
+						continue
+					}
+					k, isK := sl.Low.(*ssa.Const)
+					if !isK || k.Value == nil || k.Int64() < 1 {
+						continue
+					}
+					// only bytes that hold a whole encoded item: a parameter or stored encoding
+					root := rootValue(sl.X, 0)
+					_, isParam := root.(*ssa.Parameter)
+					if !isParam && !strings.Contains(trace(sl.X), "Cbor(") {
+						continue
+					}
+					if !strings.HasPrefix(typeStr(sl.X.Type()), "[]byte") && !strings.HasPrefix(typeStr(sl.X.Type()), "[]uint8") {
+						continue
+					}
+					// what is read there must be a tag: an integer destination (or the id extractor itself)
+					if cn != "cbor.DecodeIdFromList" {
+						isTag := false
+						if len(ci.Common().Args) > 1 {
+							dst := ci.Common().Args[1]
+							if mi, ok := dst.(*ssa.MakeInterface); ok {
+								dst = mi.X
+							}
+							if pt, ok := dst.Type().Underlying().(*types.Pointer); ok {
+								if b, ok := pt.Elem().Underlying().(*types.Basic); ok && b.Info()&types.IsInteger != 0 {
+									isTag = true
+								}
+							}
+						}
+						if !isTag {
+							continue
+						}
+					}
+					nSkip++
+					c.Bad("header-skip", ssaFuncKey(fn)+":"+cn, ci.Pos(), "the encoded item is decoded from byte %d on, stepping over its container header by a fixed count: with a non-minimal length encoding a length byte is decoded as the first element", k.Int64())
+				}
+			}
+		}
+	}
+	if nSkip == 0 {
+		c.Ok("header-skip", "module:none", 0, "no code outside package cbor steps over a container header by its own byte count")
+	}
 }
 
 func findIndexAddr(v ssa.Value, d int) *ssa.IndexAddr {
